@@ -304,6 +304,20 @@ def m_cmp(ex, p, call, k):
     if isinstance(a, Str) and isinstance(b, Str) and meth in ('eq', 'ne'):
         return k(p, z3.BoolVal((a.s == b.s) == (meth == 'eq')))
     if not (isinstance(a, z3.ExprRef) and isinstance(b, z3.ExprRef)):
+        if meth in ('eq', 'ne'):
+            # equality of two opaque values: an uninterpreted predicate named after the (fully dereferenced) operands
+            def nm(v):
+                for _ in range(4):
+                    if isinstance(v, Ptr):
+                        try:
+                            v = ex.read_loc(p, None, v.key, v.projs)
+                        except Unmodelled:
+                            break
+                return vname(v)
+            na, nb = sorted((nm(call.args[0]), nm(call.args[1])))
+            c = z3.Bool(f'eq({na},{nb})')
+            p.events.append(Event('call', call.short, call.args, c, call.span, call.depth))
+            return k(p, c if meth == 'eq' else z3.Not(c))
         return NotImplemented
     if z3.is_bv(a) and z3.is_bv(b) and a.size() == b.size():
         signed = False
@@ -370,6 +384,10 @@ def m_deref(ex, p, call, k):
     inner = ex.read_loc(p, None, v.key, v.projs) if isinstance(v, Ptr) else v
     if isinstance(inner, Ptr):
         return k(p, inner)
+    if isinstance(inner, Sym) and isinstance(inner.get_ov('items'), Agg) and 'deref_mut' not in call.short:
+        cell = ('H', inner.name + f'.items{len(inner.get_ov("items").fields)}', '')
+        p.mem[cell] = inner.get_ov('items')
+        return k(p, Ptr(cell, (), False))
     pt, _ = pointee(call.retty)
     nm = vname(inner)
     k(p, Ptr(('H', nm + '.deref', pt or ''), (), 'deref_mut' in call.short, pt or ''))
@@ -772,11 +790,86 @@ def conc(v):
 
 def as_array(ex, p, v):
     v = ex.deref(p, v)
+    if isinstance(v, Ptr):
+        v = ex.deref(p, v)
     if isinstance(v, Bytes):
         return bytes_to_agg(v)
     if isinstance(v, Agg) and v.kind == 'array':
         return v
+    if isinstance(v, Sym) and isinstance(v.get_ov('items'), Agg):
+        return v.get_ov('items')          # a Vec built element by element on this path (finite-vector model)
     return None
+
+
+# ----------------------------------------------------------------------------- finite vectors: Vec::new/with_capacity/vec![..] + push
+def _find_array(v, depth=0):
+    if depth > 8:
+        return None
+    if isinstance(v, Agg):
+        if v.kind == 'array':
+            return v
+        for f in v.fields:
+            r = _find_array(f, depth + 1)
+            if r is not None:
+                return r
+    if isinstance(v, Sym):
+        for key, val in v.ov:
+            if isinstance(key, tuple) and key and key[0] == 'f':
+                r = _find_array(val, depth + 1)
+                if r is not None:
+                    return r
+    return None
+
+
+def m_vec_new(ex, p, call, k):
+    k(p, Sym(f'vec#{p.seq("vec")}', call.retty or 'Vec').with_ov('items', Agg('[]', None, (), 'array')))
+
+
+def m_vec_from_box(ex, p, call, k):
+    """vec![a, b, ..]: `Box::new_uninit()`, the array written through the box, `box_assume_init_into_vec_unsafe(box)`"""
+    b = call.args[0]
+    arr = None
+    if isinstance(b, Sym):
+        for key, val in p.mem.items():
+            if key[0] == 'H' and str(key[1]).startswith(b.name):
+                arr = _find_array(val)
+                if arr is not None:
+                    break
+    if arr is None:
+        return NotImplemented
+    r = Sym(f'vec#{p.seq("vec")}', call.retty or 'Vec').with_ov('items', arr).with_ov('from', (call.short, tuple(call.args)))
+    p.events.append(Event('call', call.short, call.args, r, call.span, call.depth))
+    k(p, r)
+
+
+def m_vec_push(ex, p, call, k):
+    ptr = call.args[0]
+    v = ex.deref(p, ptr) if isinstance(ptr, Ptr) else None
+    items = v.get_ov('items') if isinstance(v, Sym) else None
+    if not isinstance(items, Agg) or len(items.fields) >= 16:
+        return NotImplemented
+    ex.store(p, ptr, v.with_ov('items', Agg('[]', None, tuple(items.fields) + (call.args[1],), 'array')))
+    k(p, UNIT)
+
+
+def m_vec_len_items(ex, p, call, k):
+    v = ex.deref(p, call.args[0]) if isinstance(call.args[0], Ptr) else call.args[0]
+    items = v.get_ov('items') if isinstance(v, Sym) else None
+    if not isinstance(items, Agg):
+        return NotImplemented
+    n = z3.BitVecVal(len(items.fields), 64)
+    k(p, n == 0 if call.short.endswith('is_empty') else n)
+
+
+def m_vec_into_iter_items(ex, p, call, k):
+    a = call.args[0]
+    v = ex.deref(p, a) if isinstance(a, Ptr) else a
+    if isinstance(v, Ptr):
+        v = ex.deref(p, v)
+    items = v.get_ov('items') if isinstance(v, Sym) else None
+    if not isinstance(items, Agg):
+        return NotImplemented
+    k(p, Agg('SliceIter', None, (items, z3.BitVecVal(0, 64), z3.BoolVal(not isinstance(a, Ptr))), 'struct'))
 
 
 def m_range_new(ex, p, call, k):
@@ -1053,6 +1146,11 @@ def m_iter_search(ex, p, call, k):
 
 
 GLOBAL_MODELS = [(R(r'<(std::ops::|core::ops::)?Range as Iterator>::next$'), m_range_next),
+                 (R(r'(^|::)Vec::(new|with_capacity)$'), m_vec_new),
+                 (R(r'box_assume_init_into_vec_unsafe$'), m_vec_from_box),
+                 (R(r'(^|::)Vec::push$'), m_vec_push),
+                 (R(r'(^|::)Vec::(len|is_empty)$'), m_vec_len_items),
+                 (R(r'<&?(mut )?(\w+::)*Vec as IntoIterator>::into_iter$'), m_vec_into_iter_items),
                  (R(r'(^|::)slice::(<impl[^>]*>::)?iter$'), m_slice_iter),
                  (R(r'<(std::slice::|core::slice::)?Iter as Iterator>::(copied|cloned)$'), m_iter_copied),
                  (R(r'<((std|core)::(slice|iter)::)?(Iter|Copied|Cloned) as Iterator>::next$'), m_slice_iter_next),
